@@ -75,7 +75,9 @@ def build_test(state):
       import os, signal  # pylint: disable=g-import-not-at-top,multiple-imports
       while not any(t is state['test'] for t in list(h.Test.TEST_INSTANCES.values())):      # (THIS test is registered)
         time.sleep(0.001)
-      os.kill(os.getpid(), signal.SIGINT)
+      # (to the main thread, as a terminal's Ctrl-C is served: a process-directed signal that the kernel happens to hand to
+      # another thread is only noticed when the main thread next runs bytecode -- here: when the phase has timed out)
+      signal.pthread_kill(threading.main_thread().ident, signal.SIGINT)
       while True:
         time.sleep(0.0005)
     if mode == 'reenter':
@@ -273,7 +275,7 @@ def run_history(hist, raising):
       if (res is True) != (rec.outcome is not None and rec.outcome.name == 'PASS'):
         viols.append(('return-value', '%s: execute() returned %r with outcome %s' % (tag, res, rec.outcome)))
       if rec.outcome is not None and rec.outcome.name != exp and not (exp == 'ABORTED' and rec.outcome.name == 'TIMEOUT'):
-        # (ABORTED may be reported as TIMEOUT when the executor polls the phase between the kill and its death: C04's subject)
+        # (a real Ctrl-C that is served only after the phase timed out: DESIGN.md 7.3; the abort outcome is C04's subject)
         viols.append(('outcome', '%s: outcome %s expected %s' % (tag, rec.outcome.name, exp)))
       for kind, what in check_record(rec, plan, calls[0][2]):
         viols.append((kind, '%s: %s' % (tag, what)))
